@@ -43,6 +43,41 @@ theorem deliverDKGResult_nonces (o : Order) (a : App) (sender : Addr) (eon : Nat
         obtain ⟨a', d⟩ := r
         cases d <;> exact h
 
+theorem maybeStartEon_checkTx (o : Order) (a : App) (eon : Nat) :
+    (a.maybeStartEon o eon).1.checkTx = a.checkTx := by
+  unfold maybeStartEon
+  cases a.dkgs.get? eon with
+  | none => rfl
+  | some dkg =>
+    simp only
+    cases Voting.outcome o dkg.success (toInt64 dkg.config.threshold) with
+    | none => rfl
+    | some success =>
+      simp only
+      split
+      · rfl
+      · rfl
+
+theorem deliverDKGResult_checkTx (o : Order) (a : App) (sender : Addr) (eon : Nat) (success : Bool) :
+    (a.deliverDKGResult o sender eon success).1.checkTx = a.checkTx := by
+  unfold deliverDKGResult
+  cases a.dkgs.get? eon with
+  | none => rfl
+  | some dkg =>
+    simp only
+    split
+    · rfl
+    · cases dkg.success.addVote sender success with
+      | none => rfl
+      | some voting =>
+        simp only
+        have h := maybeStartEon_checkTx o
+          { a with dkgs := a.dkgs.insert eon { dkg with success := voting } } eon
+        generalize App.maybeStartEon o
+          { a with dkgs := a.dkgs.insert eon { dkg with success := voting } } eon = r at h ⊢
+        obtain ⟨a', d⟩ := r
+        cases d <;> exact h
+
 theorem deliverBatchConfig_nonces (o : Order) (a : App) (sender : Addr) (act thr idx : Nat)
     (ks : List Raw) : (a.deliverBatchConfig o sender act thr idx ks).1.nonces = a.nonces := by
   unfold deliverBatchConfig
